@@ -19,7 +19,7 @@ contract("verif.Transformer.visit", virtual=True, assumed=True, params=dict(self
 contract(EXQ + ".build_collection_callback", virtual=True, assumed=True, params=dict(self=EXR, metadata=EventCollectionSpecification), result=Func,
          may_raise=["ValueError"], strict=False, note="abstract; the three overrides are under contract in c06")
 
-contract(EXQ + ".apply_ast_transformations", props=["C14", "C15", "C07", "C06"],
+contract(EXQ + "._apply_ast_transformations", props=["C14", "C15", "C07", "C06"],
          params=dict(self=EXR, a=Ref),
          requires=[("ast", "a != None and live(a)"),
                    ("no_extended_metadata_registered", "len(field(self, '_extended_md')) == 0")],
@@ -35,3 +35,49 @@ contract(EXQ + ".apply_ast_transformations", props=["C14", "C15", "C07", "C06"],
          loops={1: dict(invariant=[("L1", "len(field(self, '_extended_md')) == 0")], modifies=["_found_extended_md"]),
                 2: dict(invariant=[("L2.grows", "prefix_of(old(field(self, '_job_option_blocks')), field(self, '_job_option_blocks'))")],
                         modifies=["_job_option_blocks"])})
+
+# ---- C07: the fresh translation state ----------------------------------------------------------------------------
+def registries_empty():
+    return len(g_method_type_dict) == 0 and len(g_toplevel_ns) == 0
+
+
+def executor_fresh(self):
+    "no block, script or extended metadata left over from an earlier query (found extended metadata is re-collected per query)"
+    return (len(field(self, "_job_option_blocks")) == 0 and len(field(self, "_inject_blocks")) == 0 and
+            len(field(self, "_extended_md")) == 0)
+
+
+contract(EXQ + ".reset", props=["C07"], params=dict(self=EXR),
+         modifies=["_job_option_blocks", "_inject_blocks", "_extended_md",
+                   "global:func_adl_xAOD.common.cpp_types.g_method_type_dict", "global:func_adl_xAOD.common.cpp_types.g_toplevel_ns"],
+         ensures=[("executor_state_fresh", "executor_fresh(self)"),
+                  ("registries_empty", "registries_empty()"),
+                  ("frame", "frame('_job_option_blocks', self) and frame('_inject_blocks', self) and frame('_extended_md', self)")])
+
+# what every executor's reset() guarantees (the back ends re-add their default method types after the common reset)
+RESET_MODS = ["_job_option_blocks", "_inject_blocks", "_extended_md", "alloc", "_type", "_p_depth", "_is_const", "_tree_type",
+              "global:func_adl_xAOD.common.cpp_types.g_method_type_dict", "global:func_adl_xAOD.common.cpp_types.g_toplevel_ns"]
+RESET_ENS = [("executor_state_fresh", "executor_fresh(self)"), ("no_namespaces_left", "len(g_toplevel_ns) == 0"),
+             ("frame", "frame('_job_option_blocks', self) and frame('_inject_blocks', self) and frame('_extended_md', self)")]
+ANYEX = pseudo_base("verif.AnyExecutor", [EXQ])
+contract("verif.AnyExecutor.reset", virtual=True, assumed=True, params=dict(self=EXR), modifies=RESET_MODS, ensures=RESET_ENS,
+         note="what self.reset() guarantees whatever the back end; each override is verified against the same clauses")
+for _sub in ["func_adl_xAOD.atlas.xaod.executor.atlas_xaod_executor", "func_adl_xAOD.cms.aod.executor.cms_aod_executor",
+             "func_adl_xAOD.cms.miniaod.executor.cms_miniaod_executor"]:
+    contract(_sub + ".reset", props=["C07"], params=dict(self=RefOf(_sub)), modifies=RESET_MODS, ensures=RESET_ENS)
+
+contract(EXQ + "._write_cpp_files", assumed=True, params=dict(self=EXR, ast=Ref, output_path=Ref), result=Ref,
+         modifies=AST_FIELDS_MOD + ["rep", "scope", "global:func_adl_xAOD.common.cpp_vars.unique_var_index"], may_raise=["Exception"], strict=False,
+         note="the translation + rendering proper (visitor under the CVC, jinja2, file system): only its frame on the executor state is used here")
+
+# ---- the two public operations restore the fresh state on every exit ----------------------------------------------
+contract(EXQ + ".write_cpp_files", props=["C07"], params=dict(self=EXR, ast=Ref, output_path=Ref), result=Ref,
+         modifies=AST_FIELDS_MOD + RESET_MODS + ["rep", "scope", "global:func_adl_xAOD.common.cpp_vars.unique_var_index"], may_raise=["Exception"], strict=False,
+         ensures=[("fresh_after_success", "executor_fresh(self) and len(g_toplevel_ns) == 0")],
+         ensures_raise={"*": [("fresh_after_failure", "executor_fresh(self) and len(g_toplevel_ns) == 0")]})
+
+contract(EXQ + ".apply_ast_transformations", props=["C07"], params=dict(self=EXR, a=Ref), result=Ref,
+         requires=[("ast", "a != None and live(a)"), ("no_extended_metadata_registered", "len(field(self, '_extended_md')) == 0")],
+         modifies=AST_FIELDS_MOD + RESET_MODS + ["ghost:gv_log", "_found_extended_md", "_method_names@func_adl_xAOD.common.cpp_ast.cpp_ast_finder", "_element_type"],
+         may_raise=["Exception"], strict=False,
+         ensures_raise={"*": [("fresh_after_failure", "executor_fresh(self) and len(g_toplevel_ns) == 0")]})
